@@ -34,9 +34,9 @@ NAMES = ["words", "phones", "t 1", "é", "n\"q", "x=y"]
 BLANK_NAMES = [" a b ", "\tq ", " lead", "trail \t", "\u3000wide\u3000", " \"q\" "]
 # ... and line breaks anywhere (A32, fixed: the long-format reader's name pattern had no DOTALL)
 NL_NAMES = ["c\nd", "\nlead", "trail\n", "a\"\nb\" \n", "two\n\nlines", " \n x\ty \n", "name = \"u\"\nv", "xmins\nb"]
-NAMES = NAMES + BLANK_NAMES + NL_NAMES
-# a multi-line name one of whose lines reads like the tier's own span row (known finding A33, long format)
+# a multi-line name one of whose lines reads like the tier's own span row (A33, fixed: the long-format reader took it for the row)
 ROW_NAMES = ["xmin = 1\nb", "a\n xmax= -2.5 \nz"]
+NAMES = NAMES + BLANK_NAMES + NL_NAMES + ROW_NAMES
 KEYWORD_NAMES = ["item [1]", "IntervalTier", "intervals [1]:"]
 
 # composed labels: quotes, line breaks and blanks in every arrangement (a quote ending a non-final line, runs of quotes,
@@ -594,25 +594,8 @@ A10_TABLE = {
 }
 
 
-ROW_IN_NAME = re.compile(r"(xmin|xmax) ?= ?-?[\d.]+(?:[eE][-+]?\d+)?\s*$", re.MULTILINE)
-
-
-def row_in_name(name):
-    """'xmin row' / 'xmax row' when a line of a multi-line tier name, other than its last, ends like the tier's span row (known
-    finding A33: the long-format reader looks for the span rows from the top of the tier header, through the name)"""
-    if "\n" not in name:
-        return None
-    m = ROW_IN_NAME.search(name[:name.rindex("\n")])
-    return None if m is None else m.group(1) + " row"
-
-
 def keyword_place(g, fmt):
     """(keyword, place) of the first keyword occurrence that is relevant for this format"""
-    if fmt == "long_textgrid":
-        for t in g["tiers"]:
-            kw = row_in_name(t["name"])
-            if kw:
-                return kw, "name"
     for (f, kw), places in A10_TABLE.items():
         if f != fmt:
             continue
